@@ -395,4 +395,189 @@ theorem qwf_scan_cons {q : Q} {done x r rs B} (h : QWF q.segs q.maxSeg done (x :
     exact ⟨rfl, rfl, rfl, t3⟩
 
 
+/-- non-head segments right after `newSegment`: nothing consumed; may be empty -/
+def TailWF0 : List Seg → List (List Bytes) → Prop
+  | [], [] => True
+  | x :: xs, r :: rs => SegWF x [] r ∧ TailWF0 xs rs
+  | _, _ => False
+
+theorem TailWF.toTailWF0 : ∀ {t : List Seg} {rs : List (List Bytes)}, TailWF t rs → TailWF0 t rs
+  | [], [], _ => trivial
+  | _ :: _, _ :: _, h => ⟨h.1, TailWF.toTailWF0 h.2.2⟩
+  | [], _ :: _, h => by cases h
+  | _ :: _, [], h => by cases h
+
+/-- `loadSegments` drops the empty segments -/
+theorem filter_tail : ∀ (ts : List Seg) (rsT : List (List Bytes)), TailWF0 ts rsT →
+    ∃ rs', TailWF (ts.filter (fun s => !s.empty)) rs' ∧ rs'.flatten = rsT.flatten
+  | [], [], _ => ⟨[], trivial, rfl⟩
+  | x :: xs, r :: rs, h => by
+    obtain ⟨rs', h1, h2⟩ := filter_tail xs rs h.2
+    by_cases hr : r = []
+    · have : x.empty = true := (h.1.empty_iff).mpr hr
+      exact ⟨rs', by simp [List.filter, this]; exact h1, by simp [hr, h2]⟩
+    · have : x.empty = false := by
+        cases he : x.empty with
+        | false => rfl
+        | true => exact absurd ((h.1.empty_iff).mp he) hr
+      exact ⟨r :: rs', by simp [List.filter, this]; exact ⟨h.1, hr, h1⟩, by simp [h2]⟩
+  | [], _ :: _, h => by cases h
+  | _ :: _, [], h => by cases h
+
+theorem filter_sub (ts : List Seg) : ∀ x ∈ ts.filter (fun s => !s.empty), x ∈ ts := by
+  intro x hx; exact (List.mem_filter.mp hx).1
+
+/-- `Queue.Open` once every segment file has been opened (`newSegment`) into a
+    well-formed segment: empty segments are dropped, a new one is added if none is
+    left; the unconsumed records are kept, in order. -/
+theorem qOpen_core (m g B : Nat) (files : List Bytes) (h0 : Seg) (ts : List Seg)
+    (d0 r0 : List Bytes) (rsT : List (List Bytes))
+    (hmap : files.mapM (newSeg verifyAll g) = some (h0 :: ts))
+    (hw0 : SegWF h0 d0 r0) (htl : TailWF0 ts rsT) (h8 : 8 ≤ g) (hm : ¬ m < 2 * g)
+    (hroom : ∀ x ∈ h0 :: ts, x.size + B < 2^63) :
+    ∃ q', qOpen verifyAll m g files = some q' ∧ q'.maxSeg = g ∧ q'.maxSize = m ∧
+      ∃ done' r' rs', QWF q'.segs g done' r' rs' B ∧ r' ++ rs'.flatten = r0 ++ rsT.flatten ∧
+        (done' = d0 ∨ (done' = [] ∧ r0 = [])) := by
+  obtain ⟨rs', htw, hfl⟩ := filter_tail ts rsT htl
+  have hB : 8 + B < 2^63 := by
+    have := hroom h0 (by simp); have := hw0.size_eq; omega
+  unfold qOpen
+  rw [if_neg hm, hmap]
+  simp only []
+  by_cases hr0 : r0 = []
+  · -- the head segment is exhausted: dropped
+    have he0 : h0.empty = true := (hw0.empty_iff).mpr hr0
+    have hfil : (h0 :: ts).filter (fun s => !s.empty) = ts.filter (fun s => !s.empty) := by
+      simp [List.filter, he0]
+    rw [hfil]
+    cases hts : ts.filter (fun s => !s.empty) with
+    | nil =>
+      rw [hts] at htw
+      have hrs' : rs' = [] := by cases rs' with
+        | nil => rfl
+        | cons _ _ => cases htw
+      simp only [List.isEmpty_nil, if_true, Q.addSegment, List.nil_append]
+      have hcur : (⟨be64 0, 0, g⟩ : Seg).current = .error .eof := current_wf_nil (fresh_wf g)
+      simp only [hcur]
+      obtain ⟨t1, t2, t3⟩ := trimHead_single
+        ({ segs := [⟨be64 0, 0, g⟩], maxSize := m, maxSeg := g, total := 0 } : Q) ⟨be64 0, 0, g⟩ rfl
+      refine ⟨_, rfl, t2, t3, [], [], [], ?_, by simp [hr0, ← hfl, hrs'], Or.inr ⟨rfl, hr0⟩⟩
+      rw [t1]
+      by_cases hf : (⟨be64 0, 0, g⟩ : Seg).full = true
+      · rw [if_pos hf]; exact qwf_fresh g B h8 hB
+      · rw [if_neg hf]; exact qwf_fresh g B h8 hB
+    | cons h2 t2 =>
+      rw [hts] at htw
+      cases rs' with
+      | nil => cases htw
+      | cons r2 rs2 =>
+        obtain ⟨hw2, hne2, htw2⟩ := htw
+        simp only [List.isEmpty_cons, Bool.false_eq_true, if_false]
+        have hcur : ∃ y, h2.current = .ok y := by
+          cases r2 with
+          | nil => exact absurd rfl hne2
+          | cons y r2' => exact ⟨y, current_wf_cons hw2⟩
+        obtain ⟨y, hy⟩ := hcur
+        simp only [hy]
+        refine ⟨_, rfl, rfl, rfl, [], r2, rs2, ⟨⟨h2, t2, rfl, hw2, htw2, fun he => absurd he hne2⟩, h8, ?_⟩,
+          by simp [hr0, ← hfl], Or.inr ⟨rfl, hr0⟩⟩
+        intro x hx
+        have : x ∈ ts := filter_sub ts x (by rw [hts]; exact hx)
+        exact hroom x (by simp [this])
+  · have he0 : h0.empty = false := by
+      cases he : h0.empty with
+      | false => rfl
+      | true => exact absurd ((hw0.empty_iff).mp he) hr0
+    have hfil : (h0 :: ts).filter (fun s => !s.empty) = h0 :: ts.filter (fun s => !s.empty) := by
+      simp [List.filter, he0]
+    rw [hfil]
+    simp only [List.isEmpty_cons, Bool.false_eq_true, if_false]
+    have hcur : ∃ y, h0.current = .ok y := by
+      cases r0 with
+      | nil => exact absurd rfl hr0
+      | cons y r' => exact ⟨y, current_wf_cons hw0⟩
+    obtain ⟨y, hy⟩ := hcur
+    simp only [hy]
+    refine ⟨_, rfl, rfl, rfl, d0, r0, rs', ⟨⟨h0, _, rfl, hw0, htw, fun he => absurd he hr0⟩, h8, ?_⟩,
+      by simp [hfl], Or.inl rfl⟩
+    intro x hx
+    rcases List.mem_cons.mp hx with rfl | hx
+    · exact hroom x (by simp)
+    · exact hroom x (by simp [filter_sub ts x hx])
+
+
+/-- what `newSegment` makes of an intact segment: same file and head, `maxSize` re-derived -/
+def reseat (g : Nat) (s : Seg) : Seg := ⟨s.file, s.pos, max g s.file.length⟩
+
+theorem reseat_size (g : Nat) (s : Seg) : (reseat g s).size = s.size := rfl
+
+theorem reseat_wf (g : Nat) {s : Seg} {d r} (h : SegWF s d r) : SegWF (reseat g s) d r := by
+  refine ⟨h.file_eq, h.pos_eq, ?_, h.small⟩
+  intro x hx
+  have := mem_encRecs_length hx
+  have := h.size_eq
+  show x.length ≤ max g s.file.length
+  have hsz : s.file.length = s.size := rfl
+  omega
+
+theorem newSeg_reseat (g : Nat) {s : Seg} {d r} (h : SegWF s d r) :
+    newSeg verifyAll g s.file = some (reseat g s) := newSeg_wf g h
+
+theorem mapM_newSeg_tail (g : Nat) : ∀ (ts : List Seg) (rs : List (List Bytes)), TailWF0 ts rs →
+    (ts.map Seg.file).mapM (newSeg verifyAll g) = some (ts.map (reseat g)) ∧ TailWF0 (ts.map (reseat g)) rs
+  | [], [], _ => ⟨rfl, trivial⟩
+  | x :: xs, r :: rs, h => by
+    obtain ⟨h1, h2⟩ := mapM_newSeg_tail g xs rs h.2
+    refine ⟨?_, reseat_wf g h.1, h2⟩
+    simp only [List.map_cons, List.mapM_cons, newSeg_reseat g h.1, h1]
+    rfl
+  | [], _ :: _, h => by cases h
+  | _ :: _, [], h => by cases h
+
+theorem TailWF0_append : ∀ (a : List Seg) (ra : List (List Bytes)) (b : List Seg) (rb : List (List Bytes)),
+    a.length = ra.length → (TailWF0 (a ++ b) (ra ++ rb) ↔ TailWF0 a ra ∧ TailWF0 b rb)
+  | [], [], b, rb, _ => by simp [TailWF0]
+  | x :: a, r :: ra, b, rb, h => by
+    simp only [List.cons_append, TailWF0]
+    rw [TailWF0_append a ra b rb (by simpa using h)]
+    constructor
+    · rintro ⟨h1, h3, h4⟩; exact ⟨⟨h1, h3⟩, h4⟩
+    · rintro ⟨⟨h1, h3⟩, h4⟩; exact ⟨h1, h3, h4⟩
+  | [], _ :: _, _, _, h => by simp at h
+  | _ :: _, [], _, _, h => by simp at h
+
+theorem mapM_append_some {α β} (f : α → Option β) (a b : List α) (a' b' : List β)
+    (ha : a.mapM f = some a') (hb : b.mapM f = some b') : (a ++ b).mapM f = some (a' ++ b') := by
+  induction a generalizing a' with
+  | nil => simp at ha; subst ha; simpa using hb
+  | cons x xs ih =>
+    simp only [List.mapM_cons] at ha
+    cases hx : f x with
+    | none => simp [hx] at ha
+    | some y =>
+      cases hxs : xs.mapM f with
+      | none => simp [hx, hxs] at ha
+      | some ys =>
+        simp [hx, hxs] at ha
+        subst ha
+        simp [List.mapM_cons, hx, ih ys hxs]
+
+/-- **Clean reopen**: `Close` + `Open` keeps every unconsumed record, in order. -/
+theorem qwf_reopen {q : Q} {done r rs B} (h : QWF q.segs q.maxSeg done r rs B) (hm : ¬ q.maxSize < 2 * q.maxSeg) :
+    ∃ q', qOpen verifyAll q.maxSize q.maxSeg q.files = some q' ∧ q'.maxSeg = q.maxSeg ∧ q'.maxSize = q.maxSize ∧
+      ∃ done' r' rs', QWF q'.segs q.maxSeg done' r' rs' B ∧ r' ++ rs'.flatten = r ++ rs.flatten ∧
+        (done' = done ∨ (done' = [] ∧ r = [])) := by
+  obtain ⟨hd, t, hsegs, hwf, htail, _⟩ := h.shape
+  obtain ⟨hmap, htl⟩ := mapM_newSeg_tail q.maxSeg t rs htail.toTailWF0
+  have hfiles : q.files.mapM (newSeg verifyAll q.maxSeg) = some (reseat q.maxSeg hd :: t.map (reseat q.maxSeg)) := by
+    simp only [Q.files, hsegs, List.map_cons, List.mapM_cons, newSeg_reseat _ hwf, hmap]
+    rfl
+  refine qOpen_core q.maxSize q.maxSeg B q.files _ _ done r rs hfiles (reseat_wf _ hwf) htl h.maxSeg8 hm ?_
+  intro x hx
+  rcases List.mem_cons.mp hx with rfl | hx
+  · exact h.room hd (by simp [hsegs])
+  · obtain ⟨y, hy, rfl⟩ := List.mem_map.mp hx
+    exact h.room y (by simp [hsegs, hy])
+
+
 end Influx.DQ
